@@ -2,7 +2,7 @@
 //! precedence chain of the automatic decision) and the lock discipline part of C19.
 #![allow(dead_code, unused_imports, missing_docs, unreachable_pub, clippy::all, static_mut_refs)]
 use super::*;
-use crate::stream::verif_kani_mock::Mock;
+use crate::stream::verif_kani_mock::{CountMock, Mock};
 use crate::verif_kani::vk;
 use std::io::Write as _;
 
@@ -213,8 +213,13 @@ fn auto_never_is_strip_stream() {
     } else if which == 1 {
         assert!(s.write_all(data).is_ok(), "write_all succeeds on a good writer");
     } else if which == 2 {
-        let bufs = [std::io::IoSlice::new(data)];
-        assert!(s.write_vectored(&bufs).is_ok(), "write_vectored succeeds on a good writer");
+        // an empty first buffer: the strip stream writes the first NON-EMPTY one
+        let empty: &[u8] = b"";
+        let bufs = [std::io::IoSlice::new(empty), std::io::IoSlice::new(data)];
+        let r = s.write_vectored(&bufs);
+        assert!(r.is_ok(), "write_vectored succeeds on a good writer");
+        let first = unsafe { crate::adapter::verif_kani_strip_scan::REC[0] };
+        assert!(first.in_ptr == data.as_ptr() as usize && first.in_len == 2, "a Never stream's write_vectored strips the first non-empty buffer, like the strip stream's");
     } else {
         assert!(s.flush().is_ok(), "flush succeeds on a good writer");
     }
@@ -229,16 +234,170 @@ fn auto_never_is_strip_stream() {
 
 // ---- C19 (sequential lock discipline): one formatted write = one lock acquisition ----
 
-/// StripStream / AutoStream::write_fmt with a literal-only format string (formatting *arguments*
-/// pull in core::fmt's padding machinery, which CBMC does not finish): all fragments are written
-/// through a single acquisition of the inner lock
-#[cfg_attr(kani, kani::proof, kani::unwind(12))]
-fn lock_write_fmt_once() {
-    let strip = vk::any_bool();
-    let mut s = if strip { AutoStream::never(Mock::new(0)) } else { AutoStream::always_ansi(Mock::new(0)) };
-    let r = s.write_fmt(format_args!("ab\n"));
+/// AutoStream::write_fmt, with `core::fmt::write` replaced by the two-fragment uninterpreted
+/// formatter of strip_stream.rs: all fragments are written through a single acquisition of the
+/// inner lock.  Pass-through arm: the text arrives as well.
+#[cfg_attr(kani, kani::proof, kani::unwind(8),
+    kani::stub(core::fmt::write, crate::strip::verif_kani_strip_stream::fmt_write_two_fragments))]
+fn lock_write_fmt_once_pass() {
+    let mut s = AutoStream::always_ansi(Mock::new(0));
+    let (f1, f2) = (crate::strip::verif_kani_strip_stream::FRAG1, crate::strip::verif_kani_strip_stream::FRAG2);
+    let r = s.write_fmt(format_args!("{f1}{f2}"));
     assert!(r.is_ok(), "a formatted write succeeds on a good writer");
     let m = s.into_inner();
     assert!(m.locks == 1, "one formatted write acquires the inner lock exactly once");
-    assert!(m.len == 3 && m.log[0] == b'a' && m.log[1] == b'b' && m.log[2] == b'\n', "the formatted text is delivered");
+    assert!(m.len == 3 && m.log[0] == b'a' && m.log[1] == b'b' && m.log[2] == b'c', "the formatted text is delivered");
 }
+
+/// Strip arm, with the scanner replaced by its recording stand-in and a counting writer: one lock
+/// acquisition however many fragments the formatter emits and runs the scanner yields
+#[cfg_attr(kani, kani::proof, kani::unwind(8),
+    kani::stub(crate::adapter::strip::next_bytes, crate::adapter::verif_kani_strip_scan::next_bytes_recorder),
+    kani::stub(core::fmt::write, crate::strip::verif_kani_strip_stream::fmt_write_two_fragments))]
+fn lock_write_fmt_once_strip() {
+    let mut s = AutoStream::never(CountMock::new());
+    let (f1, f2) = (crate::strip::verif_kani_strip_stream::FRAG1, crate::strip::verif_kani_strip_stream::FRAG2);
+    let r = s.write_fmt(format_args!("{f1}{f2}"));
+    assert!(r.is_ok(), "a formatted write succeeds on a good writer");
+    let scans = unsafe { crate::adapter::verif_kani_strip_scan::REC_N };
+    assert!(scans >= 2, "a formatted write to a Never stream sends every fragment through the stripper");
+    let m = s.into_inner();
+    assert!(m.locks == 1, "one formatted write acquires the inner lock exactly once");
+}
+
+// ---- C08, small pieces (the combined harnesses above exceed CBMC's reach: > 18 min, > 10 GB) ----
+
+macro_rules! dispatch_case {
+    ($name:ident, $choice:expr, $strip:expr, $reported:expr) => {
+        #[cfg_attr(kani, kani::proof)]
+        fn $name() {
+            let s = AutoStream::new(Mock::new(0), $choice);
+            assert!(matches!(s.inner, StreamInner::Strip(_)) == $strip, "Never builds a stripping stream, AlwaysAnsi (and Always off Windows) a pass-through stream");
+            assert!(s.current_choice() == $reported, "the mode reported for the stream is the one in force");
+            let m = s.into_inner();
+            assert!(m.len == 0 && m.calls == 0, "constructing and dismantling a stream writes nothing");
+        }
+    };
+}
+dispatch_case!(auto_new_never, ColorChoice::Never, true, ColorChoice::Never);
+dispatch_case!(auto_new_ansi_always, ColorChoice::AlwaysAnsi, false, ColorChoice::AlwaysAnsi);
+dispatch_case!(auto_new_always, ColorChoice::Always, false, ColorChoice::AlwaysAnsi);
+
+macro_rules! passthrough_case {
+    ($name:ident, $which:expr) => {
+        #[cfg_attr(kani, kani::proof, kani::unwind(12))]
+        fn $name() {
+            let buf = [vk::any_u8(), vk::any_u8()];
+            let mut s = AutoStream::always_ansi(Mock::new(0));
+            let mut expect_len = 2;
+            if $which == 0 {
+                let r = s.write(&buf);
+                assert!(matches!(r, Ok(2)), "pass-through write reports what the inner writer accepted");
+            } else if $which == 1 {
+                assert!(s.write_all(&buf).is_ok(), "pass-through write_all succeeds on a good writer");
+            } else if $which == 2 {
+                let empty: &[u8] = b"";
+                let bufs = [std::io::IoSlice::new(empty), std::io::IoSlice::new(&buf)];
+                let r = s.write_vectored(&bufs);
+                assert!(matches!(r, Ok(2)), "pass-through write_vectored forwards to the inner writer");
+            } else {
+                assert!(s.flush().is_ok(), "pass-through flush succeeds");
+                expect_len = 0;
+            }
+            let m = s.into_inner();
+            assert!(m.len == expect_len && !m.overflow, "pass-through delivers every byte");
+            if expect_len == 2 {
+                assert!(m.log[0] == buf[0] && m.log[1] == buf[1], "pass-through forwards every byte unchanged, in order");
+            }
+            assert!(m.locks == 1, "every Write method of AutoStream acquires the inner lock exactly once");
+            assert!(m.flushes == if $which == 3 { 1 } else { 0 }, "flush reaches the inner writer exactly when asked");
+        }
+    };
+}
+passthrough_case!(auto_pass_one_write, 0);
+passthrough_case!(auto_pass_all_write, 1);
+passthrough_case!(auto_pass_vectored_write, 2);
+passthrough_case!(auto_pass_flushes, 3);
+
+macro_rules! never_case {
+    ($name:ident, $which:expr) => {
+        // concrete escape-bearing data through the real scanner: that the escape is gone shows the
+        // call went through the strip stream (what stripping means for every input is C01/C06)
+        #[cfg_attr(kani, kani::proof, kani::unwind(12))]
+        fn $name() {
+            let data: &[u8] = b"a\x1b[mb";
+            let mut s = AutoStream::never(Mock::new(0));
+            let mut expect = 2;
+            if $which == 0 {
+                // one run per call: "a" is delivered, the caller resubmits the rest
+                let r = s.write(data);
+                assert!(matches!(r, Ok(1)), "a Never stream's write behaves like the strip stream's");
+                expect = 1;
+            } else if $which == 1 {
+                assert!(s.write_all(data).is_ok(), "write_all succeeds on a good writer");
+            } else if $which == 2 {
+                // an empty first buffer: the strip stream writes the first NON-EMPTY one
+                let empty: &[u8] = b"";
+                let bufs = [std::io::IoSlice::new(empty), std::io::IoSlice::new(data)];
+                let r = s.write_vectored(&bufs);
+                assert!(matches!(r, Ok(1)), "a Never stream's write_vectored strips the first non-empty buffer, like the strip stream's");
+                expect = 1;
+            } else {
+                assert!(s.flush().is_ok(), "flush succeeds on a good writer");
+                expect = 0;
+            }
+            let m = s.into_inner();
+            assert!(m.len == expect && !m.overflow, "a Never stream delivers the stripped text");
+            if expect >= 1 {
+                assert!(m.log[0] == b'a', "a Never stream delivers the visible bytes");
+            }
+            if expect == 2 {
+                assert!(m.log[1] == b'b', "a Never stream drops the escape sequence and keeps what follows");
+            }
+            assert!(m.locks == 1, "every Write method of AutoStream acquires the inner lock exactly once");
+            assert!(m.flushes == if $which == 3 { 1 } else { 0 }, "flush reaches the inner writer exactly when asked");
+        }
+    };
+}
+never_case!(auto_never_one_write, 0);
+never_case!(auto_never_all_write, 1);
+never_case!(auto_never_vectored_write, 2);
+never_case!(auto_never_flushes, 3);
+
+// the same four cases with the scanner replaced by its recording stand-in (the contract of
+// verus:strip_scan::next_bytes as an uninterpreted function): what reaches the scanner and how
+// often shows that the call went through the strip stream, without CBMC unfolding the real scanner
+macro_rules! never_routed_case {
+    ($name:ident, $which:expr) => {
+        #[cfg_attr(kani, kani::proof, kani::unwind(8),
+            kani::stub(crate::adapter::strip::next_bytes, crate::adapter::verif_kani_strip_scan::next_bytes_recorder))]
+        fn $name() {
+            let data: &[u8] = b"ab";
+            let mut s = AutoStream::never(CountMock::new());
+            if $which == 0 {
+                assert!(s.write(data).is_ok(), "write succeeds on a good writer");
+            } else if $which == 1 {
+                assert!(s.write_all(data).is_ok(), "write_all succeeds on a good writer");
+            } else if $which == 2 {
+                let empty: &[u8] = b"";
+                let bufs = [std::io::IoSlice::new(empty), std::io::IoSlice::new(data)];
+                assert!(s.write_vectored(&bufs).is_ok(), "write_vectored succeeds on a good writer");
+            } else {
+                assert!(s.flush().is_ok(), "flush succeeds on a good writer");
+            }
+            let scans = unsafe { crate::adapter::verif_kani_strip_scan::REC_N };
+            assert!((scans > 0) == ($which != 3), "a Never stream routes every write through the strip stream");
+            if $which != 3 {
+                let first = unsafe { crate::adapter::verif_kani_strip_scan::REC[0] };
+                assert!(first.in_ptr == data.as_ptr() as usize && first.in_len == 2, "a Never stream hands the caller's (first non-empty) buffer to the stripper");
+            }
+            let m = s.into_inner();
+            assert!(m.locks == 1, "every Write method of AutoStream acquires the inner lock exactly once");
+            assert!(m.flushes == if $which == 3 { 1 } else { 0 }, "flush reaches the inner writer exactly when asked");
+        }
+    };
+}
+never_routed_case!(auto_routed_one_write, 0);
+never_routed_case!(auto_routed_all_write, 1);
+never_routed_case!(auto_routed_vectored_write, 2);
+never_routed_case!(auto_routed_flushes, 3);
